@@ -48,7 +48,7 @@ def _layout(deadline, rng, tier):
 
 def _order(deadline, rng, tier):
     from . import witness_order
-    return witness_order.search(deadline, rng, graphs=300 if tier == 'thorough' else 60, orders=120 if tier == 'thorough' else 12)
+    return witness_order.search(deadline, rng, graphs=400 if tier == 'thorough' else 150, orders=120 if tier == 'thorough' else 12)
 
 
 def _modules(deadline, rng, tier):
